@@ -3,6 +3,8 @@ import Driver.Loop
 import NumqiModel.Entangle
 import NumqiModel.Decision
 import NumqiModel.SymExt
+import Driver.SymExtOps
+import Driver.C13
 
 namespace Numqi.Driver.C05
 open Numqi Numqi.Ent
@@ -103,7 +105,8 @@ def parseTerm? (dA dB : Nat) (s : String) : Option (GInt × (Nat → GInt) × (N
         pure (w, (fun i => aa.getD i 0), (fun i => ba.getD i 0))
   | _ => none
 
-def handle (args : List String) : String :=
+/-- ops of C05 proper -/
+def handleOwn (args : List String) : String :=
   match args with
   | ["sxidx", dA, dB, kext] => Id.run do
       let some dA := dA.toNat? | return "bad-op"
@@ -204,5 +207,17 @@ def handle (args : List String) : String :=
           | _ => return "bad-op"
       | _ => return "bad-op"
   | _ => "bad-op"
+
+/-- closed-form-measure ops that C05's statement leans on ("the closed-form two-qubit measures return a finite value equal to zero"):
+handled by the C13 handler (same model constants, same theorems) -/
+def measureOps : List String := ["eof", "gme", "wread", "spinflip", "concarg", "concpure", "negread", "eofspec", "gmespec"]
+
+def handle (args : List String) : String :=
+  match Numqi.Driver.SymExtOps.handle? args with
+  | some r => r
+  | none =>
+    match args with
+    | op :: _ => if measureOps.contains op then Numqi.Driver.C13.handle args else handleOwn args
+    | [] => "bad-op"
 
 end Numqi.Driver.C05
